@@ -27,6 +27,10 @@ type bgvWorld struct {
 	ct     *rlwe.Ciphertext
 	flood  ring.DiscreteGaussian
 	sup    *big.Int // per key-switch share
+	// output side of a masked transform (= the input side unless the scenario switches parameters)
+	pout  bgv.Parameters
+	rpOut rlwe.Parameters
+	POut  *mp.Parties
 }
 
 func newBGVWorld(c *engine.Chooser, name string, k cfg) *bgvWorld {
@@ -58,21 +62,27 @@ func newBGVWorld(c *engine.Chooser, name string, k cfg) *bgvWorld {
 	}
 	w.flood = mp.Flood(w.rp, k.sigma)
 	_, w.sup = mp.KSNoise(w.rp, w.flood)
+	w.pout, w.rpOut, w.POut = w.params, w.rp, w.P
+	if k.outChain != "" { // parameter switch: another modulus chain (same degree, same t), fresh output keys
+		w.pout = outChains[k.outChain].BGV(k.t)
+		w.rpOut = w.pout.Parameters
+		w.POut = mp.NewParties(w.rpOut, k.n)
+	}
 	return w
 }
 
 // inBudget: a BGV phase is m/t + e (mod Q); multiplying by t gives m + t*e, readable modulo t iff
 // |m + t*e| < Q/2. parts counts the summands of absolute value < t besides t*e (message, masks).
-func (w *bgvWorld) inBudget(lvl int, noise *big.Int, parts int) bool {
+func (w *bgvWorld) inBudget(rp rlwe.Parameters, lvl int, noise *big.Int, parts int) bool {
 	t := new(big.Int).SetUint64(w.params.PlaintextModulus())
 	lhs := new(big.Int).Mul(t, new(big.Int).Add(noise, big.NewInt(int64(parts))))
-	return lhs.Lsh(lhs, 1).Cmp(uni.QAtLevel(w.rp, lvl)) < 0
+	return lhs.Lsh(lhs, 1).Cmp(uni.QAtLevel(rp, lvl)) < 0
 }
 
 // decryptRingT reads a BGV ciphertext with the harness's own phase: (phase * t mod Q, centred) mod t.
-func (w *bgvWorld) decryptRingT(ct *rlwe.Ciphertext, sk *rlwe.SecretKey) []uint64 {
-	ph := uni.Phase(w.rp, ct.El(), sk)
-	Q := uni.QAtLevel(w.rp, ct.Level())
+func (w *bgvWorld) decryptRingT(rp rlwe.Parameters, ct *rlwe.Ciphertext, sk *rlwe.SecretKey) []uint64 {
+	ph := uni.Phase(rp, ct.El(), sk)
+	Q := uni.QAtLevel(rp, ct.Level())
 	t := new(big.Int).SetUint64(w.params.PlaintextModulus())
 	out := make([]uint64, len(ph))
 	for j := range ph {
@@ -83,8 +93,8 @@ func (w *bgvWorld) decryptRingT(ct *rlwe.Ciphertext, sk *rlwe.SecretKey) []uint6
 }
 
 // liftMask is the harness's own RingT -> RingQ lift with scale-up: M * t^-1 mod Q_lvl.
-func (w *bgvWorld) liftMask(M []uint64, lvl int) []*big.Int {
-	Q := uni.QAtLevel(w.rp, lvl)
+func (w *bgvWorld) liftMask(rp rlwe.Parameters, M []uint64, lvl int) []*big.Int {
+	Q := uni.QAtLevel(rp, lvl)
 	tInv := new(big.Int).ModInverse(new(big.Int).SetUint64(w.params.PlaintextModulus()), Q)
 	out := make([]*big.Int, len(M))
 	for j := range M {
@@ -142,33 +152,46 @@ func bgvE2SLeaf(c *engine.Chooser, name string, k cfg) {
 	rp, n := w.rp, k.n
 	lsh, lout := resolve(k.lsh, k.lin), resolve(k.lout, rp.MaxLevel())
 	tot := new(big.Int).Add(mp.XeSup(rp.Xe()), new(big.Int).Mul(big.NewInt(int64(n)), w.sup))
-	if !w.inBudget(lsh, tot, n+2) || !w.inBudget(lout, new(big.Int).Mul(big.NewInt(int64(n)), w.sup), n+2) {
+	if !w.inBudget(rp, lsh, tot, n+2) || !w.inBudget(rp, lout, new(big.Int).Mul(big.NewInt(int64(n)), w.sup), n+2) {
 		c.Skip("noise budget of the level exceeded")
 		return
 	}
-	e2s := make([]mpbgv.EncToShareProtocol, n)
-	s2e := make([]mpbgv.ShareToEncProtocol, n)
+	inst, hist := axes(c)
+	e2s := mp.Instances(inst, n, func() mpbgv.EncToShareProtocol {
+		p, err := mpbgv.NewEncToShareProtocol(w.params, w.flood)
+		if err != nil {
+			panic(fmt.Sprintf("harness: %v", err))
+		}
+		return p
+	}, func(p mpbgv.EncToShareProtocol) mpbgv.EncToShareProtocol { return p.ShallowCopy() })
+	s2e := mp.Instances(inst, n, func() mpbgv.ShareToEncProtocol {
+		p, err := mpbgv.NewShareToEncProtocol(w.params, w.flood)
+		if err != nil {
+			panic(fmt.Sprintf("harness: %v", err))
+		}
+		return p
+	}, func(p mpbgv.ShareToEncProtocol) mpbgv.ShareToEncProtocol { return p.ShallowCopy() })
 	pub := make([]multiparty.KeySwitchShare, n)
 	sec := make([]multiparty.AdditiveShare, n)
 	for i := 0; i < n; i++ {
-		var err error
-		if i == 0 {
-			if e2s[i], err = mpbgv.NewEncToShareProtocol(w.params, w.flood); err != nil {
-				c.Fail("C16/bgv-e2s/New/error", "%v", err)
-				return
+		if hist > 0 { // both objects already served a run at another level / with another key
+			lw := warmLevel(hist, k.lin, rp.MaxLevel())
+			skw := w.P.SK[i]
+			if hist == 3 {
+				skw = w.P.SK[(i+1)%n]
 			}
-			if s2e[i], err = mpbgv.NewShareToEncProtocol(w.params, w.flood); err != nil {
-				c.Fail("C16/bgv-s2e/New/error", "%v", err)
-				return
-			}
-		} else {
-			e2s[i], s2e[i] = e2s[0].ShallowCopy(), s2e[0].ShallowCopy()
+			ctw := bgv.NewCiphertext(w.params, 1, lw)
+			_ = rlwe.NewEncryptor(rp, w.P.Ideal).EncryptZero(ctw)
+			pw, sw := e2s[i].AllocateShare(lw), mpbgv.NewAdditiveShare(w.params)
+			e2s[i].GenShare(skw, ctw, &sw, &pw)
+			cw := s2e[i].AllocateShare(lw)
+			_ = s2e[i].GenShare(skw, s2e[i].SampleCRP(lw, mp.CRS(1)), sw, &cw)
 		}
 		pub[i] = e2s[i].AllocateShare(lsh)
 		sec[i] = mpbgv.NewAdditiveShare(w.params)
 		e2s[i].GenShare(w.P.SK[i], w.ct, &sec[i], &pub[i])
 		// share = c1*s_i + e - lift(M_i)
-		if !shareNoise(c, "C16/bgv-e2s/GenShare", rp, pub[i].Value, w.ct.Value[1], negKey(rp, w.P.SK[i]), w.liftMask(sec[i].Value.Coeffs[0], lsh), w.sup, i) {
+		if !shareNoise(c, "C16/bgv-e2s/GenShare", rp, pub[i].Value, w.ct.Value[1], negKey(rp, w.P.SK[i]), w.liftMask(rp, sec[i].Value.Coeffs[0], lsh), w.sup, i) {
 			return
 		}
 	}
@@ -201,7 +224,7 @@ func bgvE2SLeaf(c *engine.Chooser, name string, k cfg) {
 			return
 		}
 		// share = -crp*s_i + e + lift(share_i)
-		neg := w.liftMask(sec[i].Value.Coeffs[0], lout)
+		neg := w.liftMask(rp, sec[i].Value.Coeffs[0], lout)
 		for j := range neg {
 			neg[j].Neg(neg[j])
 		}
@@ -225,7 +248,7 @@ func bgvE2SLeaf(c *engine.Chooser, name string, k cfg) {
 		c.Fail("C16/bgv-s2e/GetEncryption/wrong-level", "level %d, want %d", rec.Level(), lout)
 		return
 	}
-	if same, why := eqU(w.decryptRingT(rec, w.P.Ideal), w.pT); !same {
+	if same, why := eqU(w.decryptRingT(rp, rec, w.P.Ideal), w.pT); !same {
 		c.Fail("C16/bgv-s2e/reencryption-not-the-message", "%s", why)
 		return
 	}
@@ -258,11 +281,12 @@ func bgvFunc(name string, t uint64) func([]uint64) {
 func bgvTransformLeaf(c *engine.Chooser, name string, k cfg) {
 	cover(c, k)
 	w := newBGVWorld(c, name, k)
-	rp, n := w.rp, k.n
-	lsh, lout := resolve(k.lsh, k.lin), resolve(k.lout, rp.MaxLevel())
+	rp, rpo, n := w.rp, w.rpOut, k.n
+	lsh, lout := resolve(k.lsh, k.lin), resolve(k.lout, rpo.MaxLevel())
 	tot := new(big.Int).Add(mp.XeSup(rp.Xe()), new(big.Int).Mul(big.NewInt(int64(n)), w.sup))
+	_, supOut := mp.KSNoise(rpo, w.flood)
 	// a scaling transform multiplies nothing in the noise: it acts on values modulo t only
-	if !w.inBudget(lsh, tot, n+2) || !w.inBudget(lout, new(big.Int).Mul(big.NewInt(int64(n)), w.sup), n+2) {
+	if !w.inBudget(rp, lsh, tot, n+2) || !w.inBudget(rpo, lout, new(big.Int).Mul(big.NewInt(int64(n)), supOut), n+2) {
 		c.Skip("noise budget of the level exceeded")
 		return
 	}
@@ -273,46 +297,92 @@ func bgvTransformLeaf(c *engine.Chooser, name string, k cfg) {
 	}
 	refresh := k.proto == "bgv-refresh"
 	sig := "C16/" + k.proto
+	switched := k.outChain != ""
+	if switched {
+		c.Cover("params-switch", "bgv/"+k.chain.Name+"->"+k.outChain)
+	}
 
-	rfp := make([]mpbgv.RefreshProtocol, n)
-	mtp := make([]mpbgv.MaskedTransformProtocol, n)
-	shares := make([]multiparty.RefreshShare, n)
-	var crp multiparty.KeySwitchCRP
-	for i := 0; i < n; i++ {
-		var err error
-		if refresh {
-			if i == 1 {
-				rfp[i] = rfp[0].ShallowCopy()
-			} else {
-				rfp[i], err = mpbgv.NewRefreshProtocol(w.params, w.flood)
+	inst, hist := axes(c)
+	var rfp []mpbgv.RefreshProtocol
+	var mtp []mpbgv.MaskedTransformProtocol
+	if refresh {
+		rfp = mp.Instances(inst, n, func() mpbgv.RefreshProtocol {
+			p, err := mpbgv.NewRefreshProtocol(w.params, w.flood)
+			if err != nil {
+				panic(fmt.Sprintf("harness: %v", err))
 			}
-			mtp[i] = rfp[i].MaskedTransformProtocol
-		} else if i == 1 {
-			mtp[i] = mtp[0].ShallowCopy()
-		} else {
-			mtp[i], err = mpbgv.NewMaskedTransformProtocol(w.params, w.params, w.flood)
+			return p
+		}, func(p mpbgv.RefreshProtocol) mpbgv.RefreshProtocol { return p.ShallowCopy() })
+		for i := range rfp {
+			mtp = append(mtp, rfp[i].MaskedTransformProtocol)
 		}
-		if err != nil {
-			c.Fail(sig+"/New/error", "%v", err)
-			return
-		}
-		if i == 0 {
-			crp = mtp[0].SampleCRP(lout, mp.CRS(0))
+	} else {
+		mtp = mp.Instances(inst, n, func() mpbgv.MaskedTransformProtocol {
+			p, err := mpbgv.NewMaskedTransformProtocol(w.params, w.pout, w.flood)
+			if err != nil {
+				panic(fmt.Sprintf("harness: %v", err))
+			}
+			return p
+		}, func(p mpbgv.MaskedTransformProtocol) mpbgv.MaskedTransformProtocol { return p.ShallowCopy() })
+	}
+	shares := make([]multiparty.RefreshShare, n)
+	crp := mtp[0].SampleCRP(lout, mp.CRS(0))
+	for i := 0; i < n; i++ {
+		if hist > 0 { // the object already produced a share for another ciphertext at another level / with other keys
+			lw := warmLevel(hist, k.lin, rp.MaxLevel())
+			lwo := warmLevel(hist, lout, rpo.MaxLevel())
+			j := i
+			if hist == 3 {
+				j = (i + 1) % n
+			}
+			ctw := bgv.NewCiphertext(w.params, 1, lw)
+			_ = rlwe.NewEncryptor(rp, w.P.Ideal).EncryptZero(ctw)
+			sw := mtp[i].AllocateShare(lw, lwo)
+			_ = mtp[i].GenShare(w.P.SK[j], w.POut.SK[j], ctw, mtp[i].SampleCRP(lwo, mp.CRS(1)), nil, &sw)
 		}
 		shares[i] = mtp[i].AllocateShare(lsh, lout)
+		var err error
 		if refresh {
 			err = rfp[i].GenShare(w.P.SK[i], w.ct, crp, &shares[i])
 		} else {
-			err = mtp[i].GenShare(w.P.SK[i], w.P.SK[i], w.ct, crp, tf, &shares[i])
+			err = mtp[i].GenShare(w.P.SK[i], w.POut.SK[i], w.ct, crp, tf, &shares[i])
 		}
 		if err != nil {
 			c.Fail(sig+"/GenShare/error", "party %d: %v", i, err)
 			return
 		}
+		// Smudging of both halves of a refresh share. The re-encryption half is -crp*s_out + e' + lift(f(M)): multiplied
+		// by t it is f(M) + t*e' with f(M) in [0,t), so e' and f(M) separate exactly; without transform f(M) = M and
+		// the decryption half c1*s_in + e - lift(M) gives e.
+		x := mp.LinearResidual(rpo, shares[i].ShareToEncShare.Value, crp.Value, true, w.POut.SK[i])
+		Qo := uni.QAtLevel(rpo, lout)
+		bt := new(big.Int).SetUint64(t)
+		M := make([]uint64, len(x))
+		e2 := make([]*big.Int, len(x))
+		for j := range x {
+			v := ref.Center(new(big.Int).Mod(new(big.Int).Mul(x[j], bt), Qo), Qo)
+			m := new(big.Int).Mod(v, bt)
+			M[j] = m.Uint64()
+			e2[j] = new(big.Int).Div(new(big.Int).Sub(v, m), bt)
+		}
+		if isZero(e2) {
+			c.Fail(sig+"/GenShare/no-smudging-noise", "party %d: the re-encryption half of the share carries no error", i)
+			return
+		}
+		if nn := ref.InfNorm(e2); nn.Cmp(supOut) > 0 {
+			c.Fail(sig+"/GenShare/noise-above-truncation-bound", "party %d: re-encryption half |e| = %v > %v", i, nn, supOut)
+			return
+		}
+		if tf == nil {
+			if !shareNoise(c, sig+"/GenShare", rp, shares[i].EncToShareShare.Value, w.ct.Value[1], negKey(rp, w.P.SK[i]), w.liftMask(rp, M, lsh), w.sup, i) {
+				return
+			}
+			c.Cover("refresh-share-smudging", "both-halves")
+		}
 	}
 	ops := mp.Ops[multiparty.RefreshShare]{
 		Sig: sig, Key: name,
-		New:  func() multiparty.RefreshShare { return mtp[0].AllocateShare(lsh, lout) },
+		New: func() multiparty.RefreshShare { return mtp[0].AllocateShare(lsh, lout) },
 		Agg: func(a, b multiparty.RefreshShare, out *multiparty.RefreshShare) error {
 			fresh := out.MetaData.Scale.Value.Sign() == 0 // zero-value metadata: a freshly allocated output
 			err := mtp[0].AggregateShares(a, b, out)
@@ -323,7 +393,7 @@ func bgvTransformLeaf(c *engine.Chooser, name string, k cfg) {
 			return err
 		},
 		Hop:  mp.HopRefresh,
-		Flat: func(a multiparty.RefreshShare) mp.Flat { return mp.FlatRefresh(rp, rp, a) },
+		Flat: func(a multiparty.RefreshShare) mp.Flat { return mp.FlatRefresh(rp, rpo, a) },
 	}
 	agg, ok := mp.Merge(c, ops, shares, mp.Search{Mode: k.mode, Variants: true})
 	if !ok {
@@ -331,7 +401,7 @@ func bgvTransformLeaf(c *engine.Chooser, name string, k cfg) {
 	}
 	c.Outcome(name, ops.Flat(agg).Hash())
 
-	// expected plaintext polynomial
+	// expected plaintext polynomial (the output encoder is the output parameters' one: same t, same degree)
 	x := append([]uint64(nil), w.pT...)
 	if tf != nil {
 		if tf.Decode {
@@ -339,8 +409,8 @@ func bgvTransformLeaf(c *engine.Chooser, name string, k cfg) {
 		}
 		tf.Func(x)
 		if tf.Encode {
-			p := w.params.RingT().NewPoly()
-			if err := w.enc.EncodeRingT(x, w.ct.Scale, p); err != nil {
+			p := w.pout.RingT().NewPoly()
+			if err := bgv.NewEncoder(w.pout).EncodeRingT(x, w.ct.Scale, p); err != nil {
 				panic(fmt.Sprintf("harness: %v", err))
 			}
 			x = append([]uint64(nil), p.Coeffs[0]...)
@@ -352,9 +422,10 @@ func bgvTransformLeaf(c *engine.Chooser, name string, k cfg) {
 		}
 		return mtp[0].Transform(in, tf, crp, agg, out)
 	}
-	// in place (the repository's usage) and out of place into a ciphertext carrying the input's metadata
+	// in place (the repository's usage, also across a parameter switch of equal degree) and out of place into a
+	// ciphertext of the output parameters carrying the input's metadata
 	inpl := w.ct.CopyNew()
-	outp := bgv.NewCiphertext(w.params, 1, lout)
+	outp := bgv.NewCiphertext(w.pout, 1, lout)
 	*outp.MetaData = *w.ct.MetaData
 	for i, pair := range [][2]*rlwe.Ciphertext{{inpl, inpl}, {w.ct, outp}} {
 		mode := [...]string{"in-place", "out-of-place"}[i]
@@ -371,7 +442,7 @@ func bgvTransformLeaf(c *engine.Chooser, name string, k cfg) {
 			c.Fail(sig+"/finalize/wrong-scale", "%s: output scale %v, input scale %v", mode, &res.Scale.Value, &w.ct.Scale.Value)
 			return
 		}
-		if same, why := eqU(w.decryptRingT(res, w.P.Ideal), x); !same {
+		if same, why := eqU(w.decryptRingT(rpo, res, w.POut.Ideal), x); !same {
 			c.Fail(sig+"/finalize/not-f-of-message", "%s (transform %s, decode=%v, encode=%v): %s", mode, k.tf, k.dec, k.enc, why)
 			return
 		}
